@@ -13,6 +13,7 @@ import (
 	"encoding/json"
 	"fmt"
 	"github.com/valyala/fasthttp"
+	"io"
 	"math/rand"
 	"os"
 	"runtime"
@@ -30,6 +31,7 @@ import (
 	old_faithful_grpc "github.com/rpcpool/yellowstone-faithful/old-faithful-proto/old-faithful-grpc"
 	"github.com/rpcpool/yellowstone-faithful/zzverif/fixture"
 	"github.com/rpcpool/yellowstone-faithful/zzverif/vt"
+	"google.golang.org/grpc"
 	"google.golang.org/grpc/codes"
 	"google.golang.org/grpc/status"
 )
@@ -381,6 +383,11 @@ func (w *rpcWorld) grpcGetBlock(multi *MultiEpoch, slot uint64) rpcCall {
 		c.Status, c.Detail = rpcGrpcStatus(err)
 		return c
 	}
+	w.fillBlock(&c, resp, slot)
+	return c
+}
+
+func (w *rpcWorld) fillBlock(c *rpcCall, resp *old_faithful_grpc.BlockResponse, slot uint64) {
 	c.Status = "ok"
 	c.Parent, c.Blocktime, c.Height = int64(resp.ParentSlot), resp.BlockTime, int64(resp.BlockHeight)
 	c.Blockhash, c.Prev = w.hashOf(resp.Blockhash), w.hashOf(resp.PreviousBlockhash)
@@ -403,7 +410,6 @@ func (w *rpcWorld) grpcGetBlock(multi *MultiEpoch, slot uint64) rpcCall {
 			c.Metasame = false
 		}
 	}
-	return c
 }
 
 func (w *rpcWorld) grpcGetTransaction(multi *MultiEpoch, sig solana.Signature, sigID int) rpcCall {
@@ -420,6 +426,11 @@ func (w *rpcWorld) grpcGetTransaction(multi *MultiEpoch, sig solana.Signature, s
 		c.Status, c.Detail = rpcGrpcStatus(err)
 		return c
 	}
+	w.fillTx(&c, resp)
+	return c
+}
+
+func (w *rpcWorld) fillTx(c *rpcCall, resp *old_faithful_grpc.TransactionResponse) {
 	c.Status = "ok"
 	c.Slot, c.Blocktime = int64(resp.Slot), resp.BlockTime
 	if resp.Index != nil {
@@ -432,7 +443,106 @@ func (w *rpcWorld) grpcGetTransaction(multi *MultiEpoch, sig solana.Signature, s
 			c.Metasame = bytes.Equal(resp.Transaction.Meta, tt.Meta)
 		}
 	}
-	return c
+}
+
+// rpcGetStream: the bidirectional gRPC Get stream is a sequence of unary calls - one response per request, in request
+// order, with the request's id, of the request's kind (or an in-band error: NOT_FOUND exactly when the unary call says
+// NotFound). Every response is projected like the unary one (and judged by the same CallOK); a response that is missing,
+// out of order, of another kind or carries another id is recorded as status "error".
+type rpcGetStream struct {
+	grpc.ServerStream
+	reqs []*old_faithful_grpc.GetRequest
+	i    int
+	sent []*old_faithful_grpc.GetResponse
+}
+
+func (s *rpcGetStream) Context() context.Context { return context.Background() }
+func (s *rpcGetStream) Send(r *old_faithful_grpc.GetResponse) error {
+	s.sent = append(s.sent, r)
+	return nil
+}
+func (s *rpcGetStream) Recv() (*old_faithful_grpc.GetRequest, error) {
+	if s.i >= len(s.reqs) {
+		return nil, io.EOF
+	}
+	s.i++
+	return s.reqs[s.i-1], nil
+}
+
+type rpcGetItem struct {
+	op    string
+	slot  uint64
+	sig   solana.Signature
+	sigID int
+}
+
+func (w *rpcWorld) grpcGet(multi *MultiEpoch, items []rpcGetItem, idBase uint64) []rpcCall {
+	st := &rpcGetStream{}
+	for k, it := range items {
+		r := &old_faithful_grpc.GetRequest{Id: idBase + uint64(k)*3}
+		switch it.op {
+		case "getBlock":
+			r.Request = &old_faithful_grpc.GetRequest_Block{Block: &old_faithful_grpc.BlockRequest{Slot: it.slot}}
+		case "getBlockTime":
+			r.Request = &old_faithful_grpc.GetRequest_BlockTime{BlockTime: &old_faithful_grpc.BlockTimeRequest{Slot: it.slot}}
+		default:
+			sg := it.sig
+			r.Request = &old_faithful_grpc.GetRequest_Transaction{Transaction: &old_faithful_grpc.TransactionRequest{Signature: sg[:]}}
+		}
+		st.reqs = append(st.reqs, r)
+	}
+	var err error
+	pan := vt.Guard(func() { err = multi.Get(st) })
+	out := make([]rpcCall, 0, len(items))
+	for k, it := range items {
+		c := rpcCall{Op: it.op, Proto: "grpc", Slot: int64(it.slot), Sig: it.sigID, Sigs: []int{}, Pos: -1, Rsig: -1, Blockhash: [2]int64{-2, -2}, Prev: [2]int64{-2, -2}}
+		if it.op == "getTransaction" {
+			c.Slot = 0
+		}
+		switch {
+		case pan != "":
+			c.Status, c.Detail = "panic", "Get stream: "+pan
+		case k >= len(st.sent):
+			c.Status, c.Detail = "error", fmt.Sprintf("Get stream: %d responses for %d requests (stream ended with %v)", len(st.sent), len(items), err)
+		case st.sent[k].Id != st.reqs[k].Id:
+			c.Status, c.Detail = "error", fmt.Sprintf("Get stream: response %d carries id %d, request id %d", k, st.sent[k].Id, st.reqs[k].Id)
+		default:
+			switch r := st.sent[k].Response.(type) {
+			case *old_faithful_grpc.GetResponse_Error:
+				if r.Error.GetCode() == old_faithful_grpc.GetResponseErrorCode_NOT_FOUND {
+					c.Status = "notfound"
+				} else {
+					c.Status = "error"
+				}
+				c.Detail = "Get stream: " + r.Error.GetMessage()
+			case *old_faithful_grpc.GetResponse_Block:
+				if it.op != "getBlock" {
+					c.Status, c.Detail = "error", "Get stream: block response to a "+it.op+" request"
+				} else {
+					w.fillBlock(&c, r.Block, it.slot)
+				}
+			case *old_faithful_grpc.GetResponse_Transaction:
+				if it.op != "getTransaction" {
+					c.Status, c.Detail = "error", "Get stream: transaction response to a "+it.op+" request"
+				} else {
+					w.fillTx(&c, r.Transaction)
+				}
+			case *old_faithful_grpc.GetResponse_BlockTime:
+				if it.op != "getBlockTime" {
+					c.Status, c.Detail = "error", "Get stream: block-time response to a "+it.op+" request"
+				} else {
+					c.Status, c.Blocktime = "ok", r.BlockTime.GetBlockTime()
+				}
+			default:
+				c.Status, c.Detail = "error", fmt.Sprintf("Get stream: response of kind %T", r)
+			}
+		}
+		out = append(out, c)
+	}
+	if len(st.sent) > len(items) && len(out) > 0 {
+		out[len(out)-1].Status, out[len(out)-1].Detail = "error", fmt.Sprintf("Get stream: %d responses for %d requests", len(st.sent), len(items))
+	}
+	return out
 }
 
 func (w *rpcWorld) blockTime(h func(body string) (int, string, any), multi *MultiEpoch, slot uint64, proto string) rpcCall {
@@ -716,6 +826,26 @@ func TestVerifC02(t *testing.T) {
 				}
 			}
 			o.Calls = append(o.Calls, w.edgeSlot(h, "getSlot"), w.edgeSlot(h, "getFirstAvailableBlock"))
+			// the same keys through one bidirectional Get stream (archived keys interleaved with absent ones: an in-band error
+			// must not end or shift the stream)
+			{
+				var items []rpcGetItem
+				for _, i := range sub {
+					for bi, bt := range w.eps[i].built.Blocks {
+						items = append(items, rpcGetItem{op: "getBlock", slot: bt.Spec.Slot}, rpcGetItem{op: "getBlockTime", slot: bt.Spec.Slot})
+						if bi%2 == 0 {
+							items = append(items, rpcGetItem{op: "getTransaction", sig: fixture.Sig(4242, bi), sigID: 2_000_000 + bi})
+						}
+						for _, tt := range bt.Txs {
+							items = append(items, rpcGetItem{op: "getTransaction", sig: tt.Sig, sigID: tt.Spec.SigID})
+						}
+					}
+				}
+				if len(items) > 300 {
+					items = items[:300]
+				}
+				o.Calls = append(o.Calls, w.grpcGet(multi, items, uint64(si))...)
+			}
 			// the same archived keys again, from eight clients at once: a request answers the same whoever else is being
 			// served (every concurrent answer is judged like the sequential ones)
 			{
